@@ -100,7 +100,7 @@ def make_spec(case, opened):
     if fam == 'overrides' or rnd.random() < 0.12:
         add_overrides(spec, rnd)
         f, r = gen.features(spec)
-        f = sorted(set(f) | ({'update_var_overrides'} if spec.get('updates') else set()))
+        f = sorted(set(f) | ({'update_var_overrides'} if spec.get('updates') else set()) | ({'node_values_overrides'} if spec.get('node_values') else set()))
     return spec, f, r
 
 
@@ -129,6 +129,26 @@ def add_overrides(spec, rnd):
             ups.append(['/'.join(parts + [op, v]), vals.new()])
     if ups:
         spec['updates'] = ups
+    # values handed to the compile itself (node_values of get_run_func / apply): they take precedence over declared defaults, over the
+    # variations of a node template and over earlier update_var calls; drawn preferably for variables that carry such a node-level value
+    if rnd.random() < 0.6:
+        varied = set()
+        for nt in spec['node_types'].values():
+            for key in nt.get('over', {}):
+                varied.add(tuple(key.split('/')[-2:]))
+        for u in ups:
+            varied.add(tuple(u[0].split('/')[-2:]))
+        consts = [k for k in cands if ref0.kind[k] == 'const']
+        pref = [k for k in consts if (k[1], k[2]) in varied]
+        nv = {}
+        for _ in range(rnd.randint(1, 2)):
+            pool_ = pref if pref and rnd.random() < 0.8 else consts
+            if not pool_:
+                break
+            n, op, v = rnd.choice(pool_)
+            nv[f'{n}/{op}/{v}'] = vals.new()
+        if nv:
+            spec['node_values'] = nv
 
 
 def run_case(case, ctx):
